@@ -358,7 +358,7 @@ def dict_method(self, st, ref, o, name, args, kwargs, node):
 def set_method(self, st, ref, o, name, args, kwargs, node):
     if name in ("add", "update", "discard", "remove", "clear"):
         if name == "add" and o.items is not None:
-            if not any(self.x_eq(st, x, args[0]) is True for x in o.items):
+            if not any(_same_member(self, st, x, args[0]) for x in o.items):
                 o.items.append(args[0])
         elif name in ("update",) and o.items is not None:
             kind, seq = (None, None)
@@ -369,7 +369,7 @@ def set_method(self, st, ref, o, name, args, kwargs, node):
                     kind = None
             if kind == "concrete":
                 for x in seq:
-                    if not any(self.x_eq(st, x, y) is True for y in o.items):
+                    if not any(_same_member(self, st, x, y) for y in o.items):
                         o.items.append(x)
             else:
                 o.items = None
@@ -482,7 +482,7 @@ def call_builtin(self, st, name, args, kwargs, node):
         if name in ("set", "frozenset"):
             items = []
             for x in seq:
-                if not any(self.x_eq(st, x, y) is True for y in items):
+                if not any(_same_member(self, st, x, y) for y in items):
                     items.append(x)
             if name == "frozenset" and all(_plain(x) or isinstance(x, EnumVal) for x in items):
                 return [(st, "val", frozenset(items))]
@@ -574,6 +574,13 @@ def call_builtin(self, st, name, args, kwargs, node):
     if name in ("bytes", "bytearray", "OrderedDict", "StringIO"):
         return [(st, "val", Top(name + "()", False))]
     raise U("builtin %s at %s" % (name, self.loc(node)))
+
+
+def _same_member(self, st, x, y):
+    """set membership: hash first - heap objects hash by identity here"""
+    if isinstance(x, Ref) or isinstance(y, Ref):
+        return isinstance(x, Ref) and isinstance(y, Ref) and x.oid == y.oid
+    return self.x_eq(st, x, y) is True
 
 
 def x_isinstance(self, st, v, cls, node):
